@@ -342,6 +342,22 @@ def path_atoms(fn, ref, truth, s, depth=0):
     return []
 
 
+def value_of(fn, s, ref, depth=0):
+    """the value `ref` has on this path: phis through the path's bindings, selects through its knowledge"""
+    ref = s.lookup(_k(strip_bitcasts(fn, ref))) if isinstance(ref, str) else ref
+    ins = fn.get(ref) if isinstance(ref, str) else None
+    if ins is None or ins.op != 'select' or depth > 4:
+        return ref
+    for truth, pick in ((True, ins.o[1]), (False, ins.o[2])):
+        atoms = path_atoms(fn, ins.o[0], truth, s)
+        if atoms and all(s.knows(a) is True for a in atoms):
+            return value_of(fn, s, pick, depth + 1)
+        if atoms is None:
+            other = ins.o[2] if truth else ins.o[1]
+            return value_of(fn, s, other, depth + 1)
+    return ref
+
+
 def _cross(fn, src, dst, term, s, track):
     known = set(s.known)
     # condition of the edge
